@@ -36,7 +36,7 @@ BOUNDS = {
 
 def describe(tier):
     return {
-        "rule": ep.RULE_PREFIX + "Oracle: in every child list the scan built (decoder-supplied lists excluded by provenance) starts are non-decreasing and "
+        "rule": ep.RULE_PREFIX + ep.RULE_STRETCH + "Oracle: in every child list the scan built (decoder-supplied lists excluded by provenance) starts are non-decreasing and "
         "ends strictly increasing; for every pair of KEPT hits of one search where the later (in start asc / end desc / registry order) lies inside "
         "the earlier: the earlier is an undecoded context and the later is in its sub-tree -- a hit kept inside a decoded hit is a violation. "
         "Non-trivial = configuration/input where a decoded hit lies under a context at accumulated offset > 0 and a later hit ends inside it "
